@@ -39,6 +39,40 @@ def flush(ctx, S, label):
     return n
 
 
+def _flag_sites(repo, fi, pname, depth):
+    """get_template call sites reached from `fi` (through helpers that did not exist on the pinned tree) -> [(function, call, 'ok' | 'bad' | 'unknown')]:
+    ok = the call receives the caller's unwhiten flag (`pname`: the local holding it in `fi`, None when the flag did not reach `fi`)."""
+    from vlib.proto import known_functions
+    out = []
+    for c in fi.calls():
+        if q.method_name(c) == 'get_template':
+            v = q.arg(c, 1, 'unwhiten')
+            if v is None or const_value(v) is not None or isinstance(v, ast.Constant):
+                out.append((fi, c, 'bad'))
+            elif isinstance(v, ast.Name) and pname is not None and v.id == pname and len(fi.defs().get(pname, [])) <= 1:
+                out.append((fi, c, 'ok'))
+            else:
+                out.append((fi, c, 'unknown'))
+            continue
+        if depth >= 3:
+            continue
+        try:
+            tgs = repo.resolve_call(fi, c, virtual=False)
+        except Exception:
+            tgs = []
+        for t in tgs:
+            if t.where in known_functions():
+                continue
+            inner = None
+            params = [p_ for p_ in t.params if p_ != 'self']
+            for k_, p_ in enumerate(params):
+                a_ = q.arg(c, k_, p_)
+                if isinstance(a_, ast.Name) and pname is not None and a_.id == pname:
+                    inner = p_
+            out.extend(_flag_sites(repo, t, inner, depth + 1))
+    return out
+
+
 def run(ctx):
     repo = ctx.repo
     cls = repo.cls(M, 'TemplateModel')
@@ -174,8 +208,16 @@ def run(ctx):
             ctx.violated('C08.A3', mw, c0, 'the channel list is taken from the first / last contributing template (`%s`), not from the one with most spikes' % unparse(arg))
         else:
             ctx.undecided('C08.A3', mw, 'selection of the dominant template `%s` not recognised' % text[:80], c0)
-    fw = all(q.kwarg(c, 'unwhiten') is not None and unparse(q.kwarg(c, 'unwhiten')) == mw.params[2] for c in gt) and len(gt) >= 2
-    ctx.check(fw, 'C08.A3', mw, 'unwhiten flag', 'the unwhiten flag is forwarded to every template lookup', 'the unwhiten flag is not forwarded to every get_template call')
+    # the flag reaches every template lookup, in this function and in the helpers extracted from it (the dimension obligations above decide the same fact
+    # semantically; this names the call)
+    sites = _flag_sites(repo, mw, mw.params[2], 0)
+    bad = [x for x in sites if x[2] == 'bad']
+    if bad:
+        ctx.violated('C08.A3', bad[0][0], bad[0][1], 'the unwhiten flag is not forwarded to the template lookup `%s`' % unparse(bad[0][1]))
+    elif len(sites) >= 2 and all(x[2] == 'ok' for x in sites):
+        ctx.holds('C08.A3', mw, 'the unwhiten flag is forwarded to every template lookup (%d call sites)' % len(sites), sites[0][1])
+    else:
+        ctx.undecided('C08.A3', mw, 'the forwarding of the unwhiten flag to the template lookups was not recognised (%s)' % ', '.join('%s:%s' % (unparse(x[1])[:40], x[2]) for x in sites))
     avg = [c for c in mw.calls() if dotted(c.func) == 'np.average']
     okw = False
     if avg:
